@@ -9,7 +9,9 @@ Is(e) == l <= Len(Trace) /\ Trace[l].e = e
 Say(kind, t, what) == PrintT(<<kind, ToJson([t |-> t, l |-> l, what |-> what])>>)
 Adv == l' = l + 1
 
+\* the blackboxes of a diagram: its own, and (a diagram of a project application) those of the project
 Cut(ev) == {<<ev.cut[i][1], ev.cut[i][2]>> : i \in DOMAIN ev.cut}
+           \cup (IF "pcut" \in DOMAIN ev THEN {<<ev.pcut[i][1], ev.pcut[i][2]>> : i \in DOMAIN ev.pcut} ELSE {})
 Begin == Is("begin") /\ m' = M0G(Want(Ev.eps, Ev.sapp, Ev.sep, Cut(Ev)), Ev.groups) /\ Adv
 \* an action drawn on its own lifeline ("spaced" arrow) is not a call
 Step == /\ l <= Len(Trace)
